@@ -198,7 +198,7 @@ class Server:
 REQUEST_MODES = ["200_body", "200_error_body", "202_then_event", "event_then_202", "202_then_event_error",
                  "event_then_202_error", "202_silence", "status_500",
                  "status_404_json", "status_400_jsonrpc", "exception", "read_timeout", "200_garbage"]
-IDS = [1, 0, "abc", "123", 2**53 + 1]
+IDS = [1, 0, "abc", "123", 2**53 + 1, "", -1]
 
 
 def gen_cases(ctx):
